@@ -84,10 +84,10 @@ func init() {
 		})
 	clusterCheck("C07",
 		func() []Unit {
-			return append([]Unit{{Name: "enum-nextconfiguration", Enum: enumC07}}, scUnits(1, "member", "member-race", "transfer")...)
+			return append([]Unit{{Name: "enum-nextconfiguration", Enum: enumC07}}, scUnits(1, "member", "member-race", "member-trunc5", "transfer")...)
 		},
 		func() []Unit {
-			return append([]Unit{{Name: "enum-nextconfiguration", Enum: enumC07}}, scUnits(2, "member", "member-race", "transfer", "crash3")...)
+			return append([]Unit{{Name: "enum-nextconfiguration", Enum: enumC07}}, scUnits(2, "member", "member-race", "member-trunc5", "transfer", "crash3")...)
 		})
 	clusterCheck("C08",
 		func() []Unit {
@@ -124,9 +124,9 @@ func init() {
 	}})
 	register(&Check{Prop: "C14", Level: "model_checking", Rule: timedRule, Assumptions: timedAssumptions, Units: func(tier string) []Unit {
 		if tier == "thorough" {
-			return scUnits(1, "prevote3-1", "prevote3-5", "prevote3-20", "prevote3-leader", "prevote5-5", "prevote3-mixed")
+			return scUnits(1, "prevote3-1", "prevote3-5", "prevote3-20", "prevote3-leader", "prevote5-5", "prevote3-mixed", "prevote5-pair")
 		}
-		return scUnits(1, "prevote3-1", "prevote3-5", "prevote3-leader", "prevote3-mixed")
+		return append(scUnits(1, "prevote3-1", "prevote3-5", "prevote3-leader", "prevote3-mixed"), scUnit("prevote5-pair", 0))
 	}})
 	fineRule := "deviation-bounded DFS where, from the scripted race on, every select / lock / wait of every thread is a branching point (preemptions, alternative ready select cases and free scheduling choices each cost one deviation); a case is one complete execution; distinct = distinct final outcome"
 	fineAssumptions := []string{
